@@ -14,7 +14,8 @@
 (* Valid(S, s, t): t validates against schema s (a tagged tree itself; S   *)
 (* is the root schema, for "$ref").  This is the subset of JSON Schema the  *)
 (* published code_data.JSON_SCHEMA uses (type, properties, required,       *)
-(* items, anyOf, enum, $ref); the harness passes the REAL schema in and    *)
+(* items, anyOf, enum, $ref) plus additionalProperties, allOf, oneOf, not,  *)
+(* const; the harness passes the REAL schema in and    *)
 (* compares every verdict with the `jsonschema` package (ENV.schema).      *)
 (***************************************************************************)
 EXTENDS Integers, Sequences, SequencesExt, FiniteSets, TLC
@@ -58,6 +59,15 @@ Valid(S, s, t) ==
             \A i \in DOMAIN t[2] :
                 Has(Get(s, "properties"), t[2][i][1]) => Valid(S, Get(Get(s, "properties"), t[2][i][1]), t[2][i][2])
     /\ (Has(s, "items") /\ Tag(t) = "a") => \A i \in DOMAIN t[2] : Valid(S, Get(s, "items"), t[2][i])
+    /\ (Has(s, "additionalProperties") /\ Tag(t) = "o") =>
+            LET ap == Get(s, "additionalProperties")
+                listed(k) == IF Has(s, "properties") THEN Has(Get(s, "properties"), k) ELSE FALSE
+            IN \A i \in DOMAIN t[2] :
+                   ~listed(t[2][i][1]) => (IF Tag(ap) = "b" THEN ap[2] ELSE Valid(S, ap, t[2][i][2]))
+    /\ Has(s, "allOf") => \A i \in DOMAIN Get(s, "allOf")[2] : Valid(S, Get(s, "allOf")[2][i], t)
+    /\ Has(s, "oneOf") => Cardinality({i \in DOMAIN Get(s, "oneOf")[2] : Valid(S, Get(s, "oneOf")[2][i], t)}) = 1
+    /\ Has(s, "not") => ~Valid(S, Get(s, "not"), t)
+    /\ Has(s, "const") => Get(s, "const") = t
 
 \* ---------------------------------------------------------------- comparison up to set order
 \* the element list of a {"frozenset": [...]} node is unordered
